@@ -669,3 +669,56 @@ def two_log_passes(k: int, t0: bool, t1: bool, t2: bool, t3: bool, tif: bool) ->
     t0, t1, t2, t3, tif = mark.pickb(t0), mark.pickb(t1), mark.pickb(t2), mark.pickb(t3), mark.pickb(tif)
     with mark.untraced():
         return _two_passes(k, int(t0), int(t1), int(t2), int(t3), tif)
+
+
+# ---------------------------------------------------------------------------------------------------- channels with several samples AND bursts per frame
+
+def _samples_bursts(samples, bursts, step, sub):
+    """DEPT, WF (samples x bursts values of 2 bytes per frame, recorded sample-major as LIS-79 prescribes), CAL; 2 records of 2 frames.
+    Every (frame, sample, burst) address gives the recorded value - full load, stepped load and a load of WF alone."""
+    nv = samples * bursts
+    chs = [(b'DEPT', b'.1IN', 4, 1, 73), (b'WF  ', b'MV  ', 2 * nv, samples, 79), (b'CAL ', b'IN  ', 4, 1, 73)]
+    lrs = [L.file_head_tail(128), L.dfsr(chs, False)]
+    rows = []
+    g = 0
+    for _ in range(2):
+        frames = []
+        for f in range(2):
+            wf = [1000 * g + 10 * sa + bu for sa in range(samples) for bu in range(bursts)]
+            rows.append((1000 - 60 * g, wf, 7 * g + 1))
+            frames.append(L.i32(1000 - 60 * g) + b''.join(L.i16(v) for v in wf) + L.i32(7 * g + 1))
+            g += 1
+        lrs.append(L.data_record(frames, None))
+    lrs.append(L.file_head_tail(129))
+    data, pos = L.physical(lrs, False, None)
+    f = File.FileRead(SymFile(data), 'id', False)
+    lp = list(FileIndexer.FileIndex(f).genLogPasses())[0].logPass
+    lp.setFrameSet(f, slice(0, 4, step), [1] if sub else None)
+    mark.hit()
+    fs = lp.frameSet
+    sel = list(range(0, 4, step))
+    if fs.numFrames != len(sel):
+        return False
+    for i, g_ in enumerate(sel):
+        x, wf, cal = rows[g_]
+        for sa in range(samples):
+            for bu in range(bursts):
+                if fs.value(i, 1, 0, sa, bu) != wf[sa * bursts + bu]:
+                    return False
+        if [float(v) for v in fs.frame_channel_sub_channel_values(i, 1, 0)] != [float(v) for v in wf]:
+            return False
+        if not sub and fs.value(i, 2, 0, 0, 0) != cal:
+            return False
+        if fs.xAxisValue(i) != x:
+            return False
+    return True
+
+
+def samples_and_bursts(samples: int, bursts: int, step: int, sub: bool) -> bool:
+    """
+    pre: 1 <= samples <= 3 and 1 <= bursts <= 3 and 1 <= step <= 2
+    post: _
+    """
+    samples, bursts, step, sub = mark.pick(samples, 1, 3), mark.pick(bursts, 1, 3), mark.pick(step, 1, 2), mark.pickb(sub)
+    with mark.untraced():
+        return _samples_bursts(samples, bursts, step, sub)
